@@ -872,8 +872,33 @@ def seg_inner_lines(seg):
     return s
 
 
+def corpus_cases(M):
+    out = []
+    for p in sorted(glob.glob(os.path.join(vlib.VERIF, "corpus", "C17", "s*.json"))):
+        d = json.load(open(p))
+        c = ScriptCase()
+        c.mode, c.profile, c.logic, c.plain = d["mode"], "corpus:" + os.path.basename(p)[:-5], d["logic"], d["plain"]
+        c.ren = N2.Renaming()
+        funs, sorts, labels, lets = N2.plain_symbols(c.plain)
+        r = d.get("ren", {})
+        for f in funs:
+            c.ren.fun[f] = r.get("fun", {}).get(f, f)
+        for s in sorts:
+            c.ren.sort[s] = r.get("sort", {}).get(s, s)
+        for l in labels:
+            c.ren.label[l] = r.get("label", {}).get(l, l)
+        for v in lets:
+            c.ren.letvar[v] = r.get("letvar", {}).get(v, v)
+        if d.get("partition"):
+            c.partition = tuple(d["partition"])
+        out.append(c)
+    return out
+
+
 def part_scripts(ctx, M, H):
     rng = ctx.rng
+    for c in corpus_cases(M):
+        script_case(ctx, M, c)
     modes = ["model", "model+value", "value", "assignment", "core", "fullcore", "itp", "dump"]
     profiles = ["good"] * 6 + ["bad-name", "sort-name", "label-name", "clash", "clash"]
     n = 72 if ctx.quick else 2500
